@@ -190,7 +190,7 @@ def gen_case(rnd):
 
 
 def case_line(i, c):
-    return "P %d %s %d %s" % (i, hexs(c["pattern"]), len(c["msgs"]), " ".join(enc_msg(m) for m in c["msgs"]))
+    return "P %s %s %d %s" % (i, hexs(c["pattern"]), len(c["msgs"]), " ".join(enc_msg(m) for m in c["msgs"]))
 
 
 def ser(c):
